@@ -116,7 +116,7 @@ def check_family(ctx, rng, case, doc, label, base_cls):
 
 def run(ctx):
     rng = ctx.rng("cases")
-    for ci in range(ctx.n(6)):
+    for ci in range(ctx.n(4)):
         case = exec_mon.Case(rng, "c06:%d:%d:%d" % (ctx.seed, ctx.shard, ci),
                              schema_kw={"features": {"subscription": ci % 2 == 0}})
         case.sdl = S.to_sdl(case.ir)[0]
